@@ -18,9 +18,15 @@ CHECKS = {
  "C02": ("exploration", "runtime monitoring: crash-isolated worker processes with a write-ahead log of the input in flight; Go panics recovered and fatal errors attributed by the parent; step hook as budget-overrun monitor",
          "Hostile workloads (adversarial source shapes up to 64 KiB, EOF truncations, byte/token/line mutants of the repository corpus under sampled FileOptions; direct calls of every enumerated callable with edge-pool arguments; random cyclic value graphs under str/repr/==/</hash/json.encode/sorted/in/freeze) run in child processes; any panic, fatal error or budget overrun is a violation attributed to its input. Held means no crash on the inputs generated; the space is unbounded and only sampled.",
          TRUST + "Out-of-memory fatals and makeslice panics on operands with Len >= 2^31 are excluded as the property's 'single huge allocation'; calls that exceed the wall-clock guard are counted, not judged.", "§5 C02"),
+ "C03": ("exploration", "runtime monitoring: record-equality oracle over repeated executions of one program in differing conditions: two fresh processes (new hash seed, ASLR, allocation history), the same process after ~100 unrelated executions and a GC, a reused thread, 8 goroutines running the same program and 8 running different ones; records compared byte for byte",
+         "Record = printed output, host events, canonical globals (iteration order of every reachable dict/set, attribute listings), error message incl. spelling hints, every backtrace frame, execution steps. Programs: generated (internal/gen) plus 15 directed families leaning on every map-backed listing and hash-dependent path (string keys around the 12-byte seeded-hash switch, growth patterns, dir(), struct/json key order, hash(), spell-check ties, fixed-clock time).",
+         TRUST + "canon renders iteration order faithfully; programs whose reference execution allocates > 32 MB are excluded before any arm judges them (counted).", "§5 C03"),
  "C04": ("exploration", "runtime monitoring: invariant hook (VerifState frozen flag of every reachable container) + attack oracle (every discovered mutator - methods via AttrNames, Go API, Starlark statements in a second module, the module's own mutating functions - must fail and leave the canonical snapshot unchanged) over generated graph-building modules; identity monitor on the predeclared dict and the Universe",
          "Generated modules build shared/nested/cyclic object graphs with closures, defaults, bound methods, structs, host values and a loaded library, finishing normally or by error; reachability is computed through public accessors over 10 edge kinds (all must be traversed); unreachable host values must stay mutable.",
          TRUST + "mutator discovery finds a mutator only if one of the probed argument tuples changes a small sample collection.", "§5 C04"),
+ "C05": ("exploration", "runtime monitoring: Go race detector (children from the -race build; race log parsed, reports deduplicated by innermost library frames; a self-provoked race proves the log is read) + transcript-equality oracle between 16 concurrent goroutines and solo runs + crash attribution (concurrent map writes, checkptr)",
+         "16 goroutines on one frozen module's values: first-use storms (first Hash/String/Freeze/Len/Iterate/AttrNames on every shared object), shuffled and lock-step rounds of 160 operations (reads, iteration in every construct, comparison, hashing, printing, json, calls of closures, storing into own globals = re-freeze, every mutator must be rejected), plus 16 goroutines Init-ing and calling ONE *Program (source and Write/CompiledProgram forms) with failing runs that decode position tables concurrently. >= 90 % of shared objects must have been touched in overlapping windows or the run is inconclusive.",
+         TRUST + "the race detector sees only accesses that happen (about four remembered accesses per word): interleavings are sampled, not exhausted.", "§5 C05"),
  "C06": ("fault_enumeration", "runtime monitoring: invariant hooks (VerifState itercount/frozen) + Iterate/Done balance counters on host iterables, over an enumerated construct x exit-path x step-limit matrix",
          "Every cell of {list,dict,set} x iterating construct x exit path (incl. host panic and step-limit cancellation at sampled/every step index) x nesting is executed on the real VM; in-iteration probes attack the collection with every discovered effective mutator; post-conditions read the lock counter through the hook. Held means: no cell of the enumerated matrix violated; it says nothing about constructs or built-ins not in the matrix (new ones are discovered automatically by probing AttrNames/Universe).",
          TRUST + "Mutator discovery finds a mutator only if one of the probed argument tuples changes a 3-element collection.", "§5 C06"),
@@ -51,6 +57,9 @@ CHECKS = {
  "C16": ("exploration", "runtime monitoring: construction-time oracle (programs are built as trees with one planted failing operation; the renderer records where every token lands; the expected call stack - names, files, lines, columns - is read from the tree and compared frame by frame with EvalError.CallStack and Backtrace), also after a Write/CompiledProgram round trip; evidence decodes the real line tables to show which delta classes were hit",
          "Call chains of depth 1-8 through defs, closures, lambdas, loaded modules, built-in and host callbacks x 27 failing kinds x placements with line gaps to 10^5, columns to 10^4, thousands of preceding instructions, out-of-order blocks (negative deltas), multi-byte runes; coverage gate requires every saturation/sign class and boundary delta of the line-table encoding.",
          TRUST + "internal/gen renderer; for arity/recursion failures the callee frame's position is not demanded; slices, duplicate keys, augmented targets and load are judged by span (DESIGN §9).", "§5 C16"),
+ "C17": ("exploration", "runtime monitoring: round-trip equality oracle (source program P1 -> Write -> CompiledProgram P2 -> Write -> P3): byte identity of the encodings and equality of execution Records (host events with call-stack positions, globals, errors with full backtraces, steps) and of all program/function metadata; step hook used only as a memory guard",
+         "Generated programs x 64 option vectors, directed constant/size families (int64 extremes, big ints, floats, bytes, non-UTF-8 strings, 70 000 constants, 20 000 globals, 1 MiB literals, 300 loads, deep nesting), position-table stress with failing runs, and the repository corpus; an independent reader of the documented encoding names the section in which two encodings differ (evidence only).",
+         TRUST + "canon records; cases in which one execution grows the heap by > 96 MB are excluded from behavioural comparison (counted).", "§5 C17"),
  "C18": ("exploration", "runtime monitoring: reference oracles (encoding/json, an independent RFC 8259 recogniser, CPython json) judging every encode output and every decoded document; grammar-driven document generator with single-token corruptions",
          "Generated values (depth <= 6, ints to 2^200, arbitrary Unicode) round-tripped through encode/decode; generated valid documents compared with the reference data model; 39 corruption classes must be rejected; default= semantics; indent.",
          TRUST + "encoding/json, CPython json and the in-tree recogniser must agree among themselves on a document before it is judged.", "§5 C18"),
